@@ -94,7 +94,7 @@ func runRoute(c *core.Ctx, r *rec, idx int) {
 		fb: flatbuffers.NewBuilder(2048), dec: newStorageDecoder(), pool: map[*metric.BrokerBatchRows]*poolInfo{},
 	}
 	nScen := c.Pick(48, 180)
-	for s := 0; s < nScen; s++ {
+	for s := 0; s < nScen && !r.giveUp(); s++ {
 		rc.runScenario(fmt.Sprintf("route-%d/%d", idx, s), c.Pick(36, 70))
 	}
 }
@@ -206,7 +206,7 @@ func (rc *routeCtx) runScenario(id string, nBatches int) {
 	}
 
 	wire := map[int64]*routed{} // uid -> expectation, for batches sent through the channel manager
-	for b := 0; b < nBatches; b++ {
+	for b := 0; b < nBatches && !r.giveUp(); b++ {
 		rs, batch := rc.genAndParse(sc, b)
 		if batch == nil {
 			continue
@@ -420,9 +420,6 @@ func (rc *routeCtx) genAndParse(sc *scenario, b int) ([]*routed, *metric.BrokerB
 	}
 	if hasPreEpoch {
 		r.Count("batches_with_an_out_of_domain_timestamp", 1)
-		for _, x := range rs {
-			x.preEpoch = true
-		}
 	}
 	if b == 0 {
 		r.Sample(map[string]interface{}{"phase": "route", "scenario": sc, "format": format, "first_metric": rs[0].m, "rows": n})
@@ -489,6 +486,18 @@ func (rc *routeCtx) genAndParse(sc *scenario, b int) ([]*routed, *metric.BrokerB
 		})
 		if x.inBatch && x.shard < 0 {
 			x.shard = jumpHash(hashOfTags(rowsOf[x.m.UID].Tags), sc.Shards)
+		}
+	}
+	if hasPreEpoch {
+		// only rows that share the shard group with an out-of-domain row can be affected by it
+		shardsHit := map[int32]bool{}
+		for _, x := range rs {
+			if x.inBatch && outOfDomainTS(x.m.TS) {
+				shardsHit[x.shard] = true
+			}
+		}
+		for _, x := range rs {
+			x.preEpoch = x.inBatch && shardsHit[x.shard]
 		}
 	}
 	return rs, batch
@@ -579,7 +588,11 @@ func (rc *routeCtx) routeByIterators(sc *scenario, rs []*routed, batch *metric.B
 		}
 	}
 	if total != batch.Len() {
-		if rs[0].preEpoch && total < batch.Len() {
+		anyPre := false
+		for _, x := range rs {
+			anyPre = anyPre || x.preEpoch
+		}
+		if anyPre && total < batch.Len() {
 			r.Violation(preEpochClass, preEpochMsg(fmt.Sprintf("iterators yielded %d rows of a batch of %d", total, batch.Len())), rc.witness(sc, rs[0], nil))
 		} else {
 			r.Violation("C16/iterator-lost-or-duplicated-rows", fmt.Sprintf("iterators yielded %d rows of a batch of %d", total, batch.Len()), rc.witness(sc, rs[0], nil))
@@ -600,7 +613,7 @@ func preEpochMsg(detail string) string {
 }
 
 func (rc *routeCtx) droppedInWindow(sc *scenario, x *routed, how string) {
-	if x.preEpoch {
+	if x.preEpoch && !(x.stale && !sc.Repair) {
 		rc.r.Violation(preEpochClass, preEpochMsg(fmt.Sprintf("in-window row (ts %d) dropped (%s)", x.m.TS, how)), rc.witness(sc, x, nil))
 		return
 	}
